@@ -23,7 +23,9 @@ def H(name, props, kernel, bound, tier="quick", measured_s=30, models=("M1", "M7
             "bound": bound,
             "tier": tier,
             "measured_s": measured_s,
-            "cap_s": int(max(240, 5 * measured_s)),
+            # generous: a cap hit on the unchanged tree would make the check exit 2; measured times
+            # vary by 3x with machine load (14 solver processes share the memory bus)
+            "cap_s": int(max(900, 8 * measured_s)),
             "models": list(models),
             "mem_gb": mem_gb,
             "termination": termination,
@@ -108,7 +110,7 @@ H("h_datetime_fromstr::c12_fromstr_u5", ["C12", "C04"], "toml_datetime::Datetime
 H("h_float::c11_float_overflow_guard", ["C11", "C01"], "numbers::float (float_, rest.try_map(parse), verify) with M2 + M3",
   "[+-]? d (. d)? e [+-]? ddd : all sign choices, all digits symbolic (mantissa <= 2 digits, exponent 3 digits)", tier="thorough", measured_s=725, models=("M1", "M2", "M3", "M7"), mem_gb=30)
 H("h_float::c11_float_overflow_guard_small", ["C11", "C01"], "numbers::float (float_, rest.try_map(parse), verify) with M2 + M3",
-  "[-]? d e ddd : optional minus, 4 symbolic digits", measured_s=200, models=("M1", "M2", "M3", "M7"), mem_gb=30)
+  "[-]? d e ddd : optional minus, 4 symbolic digits", tier="thorough", measured_s=1100, models=("M1", "M2", "M3", "M7"), mem_gb=30)
 
 H("h_float_writer::c11_write_f64_all_bits", ["C11"], "toml_write: <f64 as WriteTomlValue>::write_toml_value (unmodified source via E2)", "every f64 bit pattern (integrality of finite values judged by `% 1.0` on both sides, see M4)", measured_s=16, models=("E2", "M4"))
 H("h_float_writer::c11_write_f32_all_bits", ["C11"], "toml_write: <f32 as WriteTomlValue>::write_toml_value (unmodified source via E2)", "every f32 bit pattern", measured_s=11, models=("E2", "M4"))
@@ -123,9 +125,10 @@ H("h_quoting::c10_value_offers_u6", ["C10"], "toml_write::TomlStringBuilder::{ne
 H("h_quoting::c10_key_offers_u6", ["C10"], "toml_write::TomlKeyBuilder::{new, as_unquoted, as_literal, as_basic_pretty}, KeyMetrics::calculate", U % 6, measured_s=5, models=())
 
 # ---- C15: line/column translation ---------------------------------------------------------------
-H("h_position::c15_translate_position_u3", ["C15", "C04"], "error::translate_position", U % 3 + " x every index <= len on a character boundary", measured_s=172, models=("M7",))
-H("h_position::c15_translate_position_two_wide", ["C15", "C04"], "error::translate_position", "two 2-byte characters (all lead/continuation byte values) x index in {0, 2, 4}", measured_s=400, models=("M7",))
-H("h_position::c15_translate_position_u4", ["C15", "C04"], "error::translate_position", U % 4 + " x every index <= len on a character boundary", tier="thorough", measured_s=490, models=("M7",))
+for n, t, m in ((3, "quick", 16), (4, "quick", 23), (5, "quick", 30), (6, "quick", 31), (8, "thorough", 120)):
+    H(f"h_position::c15_translate_position_u{n}", ["C15", "C04"], "error::translate_position", U % n + " x every index <= len on a character boundary", tier=t, measured_s=m, models=("M7", "M9"))
+H("h_position::c15_translate_position_two_wide", ["C15", "C04"], "error::translate_position", "two 2-byte characters (all lead/continuation byte values) x index in {0, 2, 4}", measured_s=12, models=("M7", "M9"))
+H("h_position::c15_translate_position_three_chars", ["C15", "C04"], "error::translate_position", "three characters, each 1 or 2 bytes wide (symbolic widths and byte values) x every character boundary", measured_s=28, models=("M7", "M9"))
 
 PROPERTIES = {
     "C01": {
@@ -164,6 +167,7 @@ PROPERTIES = {
         "outside": "message non-emptiness; span well-formedness from winnow's char_span; Display for TomlError; deserialization error spans/key paths",
         "assumptions": [
             "M7: core::str::from_utf8 replaced by a plain validating loop inside translate_position",
+            "M9: core::str::count::count_chars (str::chars().count()) replaced by a plain loop; std switches to a word-at-a-time algorithm at 32 bytes, which CBMC must encode when the length is symbolic (> 16 GB)",
             "oracle: refmodel::linecol::r_linecol; spans start on character boundaries",
         ],
     },
